@@ -750,3 +750,360 @@ func ruleRepoNodeLockOrder(r *Run) {
 	}
 	r.check(n >= 10 && nested >= 3, "datastore:repo-lock-acquisitions", fmt.Sprintf("%d functions lock a repo, %d acquisitions in functions that also lock a node", n, nested), "too few: rule needs review", "-")
 }
+
+// ---------------------------------------------------------------------------------------------
+// R20.23 — a deferred Unlock finds its lock held;  R20.24 — no send on a channel that was never made
+
+func init() {
+	register(ruleDef{ID: "R20.23", Prop: "C20", Tier: "quick", Floor: 20,
+		Title: "a deferred Unlock finds its lock held: where a function defers the Unlock of a mutex, no path to a return releases that mutex explicitly as well (a second Unlock is a fatal error that no recover catches)",
+		Fn:    ruleDeferredUnlockHeld})
+	register(ruleDef{ID: "R20.24", Prop: "C20", Tier: "quick", Floor: 1,
+		Title: "no send on a channel that was never made: a channel that is created only when some option is set is sent on (directly or by a callee) only under a test of that same option or of the channel itself (a send on a nil channel blocks for ever, with the request's locks held)",
+		Fn:    ruleConditionalChannel})
+}
+
+func ruleDeferredUnlockHeld(r *Run) {
+	w := r.W
+	n := 0
+	for _, f := range w.RepoFuncs {
+		if len(f.Blocks) == 0 || strings.HasSuffix(w.fposFile(f), "_test.go") {
+			continue
+		}
+		p := relPkg(pkgPathOf(f))
+		if !strings.HasPrefix(p, "datatype/") && p != "datastore" && p != "server" && !strings.HasPrefix(p, "storage") {
+			continue
+		}
+		k := 0
+		for _, b := range f.Blocks {
+			for _, in := range b.Instrs {
+				d, ok := in.(*ssa.Defer)
+				if !ok {
+					continue
+				}
+				callee := d.Call.StaticCallee()
+				if callee == nil || !strings.HasPrefix(callee.String(), "(*sync.") || (callee.Name() != "Unlock" && callee.Name() != "RUnlock") || len(d.Call.Args) == 0 {
+					continue
+				}
+				key, name, _ := mutexKey(d.Call.Args[0])
+				if key == "" {
+					continue
+				}
+				n++
+				k++
+				// a path: defer … explicit Unlock of the same mutex … return, with no Lock of it in between
+				bad := ""
+				isRelock := func(x ssa.Instruction) bool {
+					op, ok := asLockOp(x)
+					return ok && op.lock && op.key == key
+				}
+				for _, ub := range f.Blocks {
+					for _, u := range ub.Instrs {
+						op, ok := asLockOp(u)
+						if !ok || op.lock || op.key != key {
+							continue
+						}
+						if findPath(f, d, nil, func(x ssa.Instruction) bool { return x == u }, allEdges) == nil {
+							continue
+						}
+						if findPath(f, u, isRelock, isReturn, allEdges) != nil {
+							bad = w.pos(u.Pos())
+						}
+					}
+				}
+				r.check(bad == "", fmt.Sprintf("%s:deferred-unlock#%d:%s:lock-still-held-at-return", fname(f), k, name), "no path releases the mutex explicitly before the deferred Unlock runs",
+					"a path to a return unlocks "+name+" explicitly although its Unlock is also deferred: the deferred call unlocks an unlocked mutex, a fatal error that kills the process", bad)
+			}
+		}
+	}
+	r.check(n >= 20, "repo:deferred-unlocks", fmt.Sprintf("%d deferred unlocks examined", n), "too few: rule needs review", "-")
+}
+
+func ruleConditionalChannel(r *Run) {
+	w := r.W
+	n := 0
+	for _, top := range w.RepoFuncs {
+		if len(top.Blocks) == 0 || top.Parent() != nil || strings.HasSuffix(w.fposFile(top), "_test.go") || !strings.HasPrefix(relPkg(pkgPathOf(top)), "datatype/") {
+			continue
+		}
+		for _, b := range top.Blocks {
+			for _, in := range b.Instrs {
+				cell, ok := in.(*ssa.Alloc)
+				if !ok {
+					continue
+				}
+				pt, ok := cell.Type().Underlying().(*types.Pointer)
+				if !ok {
+					continue
+				}
+				if _, isCh := pt.Elem().Underlying().(*types.Chan); !isCh {
+					continue
+				}
+				// stores into the cell: exactly the conditional creation(s)
+				var makes []*ssa.Store
+				other := false
+				for _, ref := range *cell.Referrers() {
+					if st, ok := ref.(*ssa.Store); ok && st.Addr == ssa.Value(cell) {
+						if _, isMk := st.Val.(*ssa.MakeChan); isMk {
+							makes = append(makes, st)
+						} else if !isNilConst(st.Val) {
+							other = true
+						}
+					}
+				}
+				if len(makes) != 1 || other {
+					continue
+				}
+				mk := makes[0]
+				// the option guarding the creation
+				var optRoots []rootVal
+				guardedMake := false
+				for _, gb := range top.Blocks {
+					ifi, ok := gb.Instrs[len(gb.Instrs)-1].(*ssa.If)
+					if !ok || !guardedByEdge(ifi, 0, mk) {
+						continue
+					}
+					guardedMake = true
+					optRoots = append(optRoots, roots(ifi.Cond, top)...)
+				}
+				if !guardedMake {
+					continue
+				}
+				n++
+				sameOption := func(cond ssa.Value, g *ssa.Function) bool {
+					for _, a := range roots(cond, g) {
+						for _, o := range optRoots {
+							if a.V == o.V {
+								return true
+							}
+						}
+					}
+					return false
+				}
+				isCell := func(v ssa.Value, g *ssa.Function) bool {
+					for _, rt := range roots(v, g) {
+						if rt.V == ssa.Value(cell) {
+							return true
+						}
+						if mkc, ok := rt.V.(*ssa.MakeChan); ok && mkc == mk.Val {
+							return true
+						}
+					}
+					return false
+				}
+				k := 0
+				for _, g := range withClosures(top) {
+					for _, gb := range g.Blocks {
+						for _, gi := range gb.Instrs {
+							var use ssa.Instruction
+							switch x := gi.(type) {
+							case *ssa.Send:
+								if isCell(x.Chan, g) {
+									use = x
+								}
+							case ssa.CallInstruction:
+								callee := staticCallee(x)
+								if callee == nil || len(callee.Blocks) == 0 {
+									continue
+								}
+								for i, a := range x.Common().Args {
+									if i < len(callee.Params) && isCell(a, g) && sendsOn(w, callee, []ssa.Value{callee.Params[i]}, 1) {
+										use = gi
+									}
+								}
+							}
+							if use == nil {
+								continue
+							}
+							// made before the use on every path: in the same function the creation dominates the use;
+							// in a closure it dominates the point where the closure is built
+							at := use
+							for h := g; h != top && h != nil; h = h.Parent() {
+								var mc ssa.Instruction
+								if p := h.Parent(); p != nil {
+									for _, pb := range p.Blocks {
+										for _, pi := range pb.Instrs {
+											if m2, ok := pi.(*ssa.MakeClosure); ok && m2.Fn == ssa.Value(h) {
+												mc = m2
+											}
+										}
+									}
+								}
+								at = mc
+								if at == nil {
+									break
+								}
+							}
+							if at != nil && at.Parent() == top && domInstr(mk, at) {
+								continue
+							}
+							k++
+							guarded := false
+							for _, ib := range g.Blocks {
+								ifi, ok := ib.Instrs[len(ib.Instrs)-1].(*ssa.If)
+								if !ok {
+									continue
+								}
+								if sameOption(ifi.Cond, g) && guardedByEdge(ifi, 0, use) {
+									guarded = true
+								}
+								if bo, ok := ifi.Cond.(*ssa.BinOp); ok && bo.Op == token.NEQ && isNilConst(bo.Y) && isCell(bo.X, g) && guardedByEdge(ifi, 0, use) {
+									guarded = true
+								}
+							}
+							r.check(guarded, fmt.Sprintf("%s:conditional-channel:%s:use#%d", fname(top), cell.Comment, k), "the send happens under the option that creates the channel",
+								"a channel that is only created when an option is set is sent on without testing that option: with the option off the channel is nil, the send blocks for ever and the request never returns (holding its locks)", w.pos(use.Pos()))
+						}
+					}
+				}
+			}
+		}
+	}
+	r.check(n >= 1, "datatype:conditionally-created-channels", fmt.Sprintf("%d channels created under an option", n), "none found: rule needs review", "-")
+}
+
+// ---------------------------------------------------------------------------------------------
+// R11.14 — a function that serialises itself with its instance's mutex writes to the store only inside it
+
+func init() {
+	register(ruleDef{ID: "R11.14", Prop: "C11", Tier: "quick", Floor: 2,
+		Title: "a replacement is one critical section: a data-type method that takes its instance's own mutex performs all its store writes (deletes included, also those of the methods it calls) while holding it, none before the Lock (two concurrent replacements must not end as the union of both)",
+		Fn:    ruleWritesInsideOwnLock})
+}
+
+func ruleWritesInsideOwnLock(r *Run) {
+	w := r.W
+	sinks := w.newSinks()
+	reach := w.newReach(func(c ssa.CallInstruction) bool { return sinks.isStorageWrite(c) }, nil)
+	n := 0
+	for _, f := range w.RepoFuncs {
+		if len(f.Blocks) == 0 || f.Parent() != nil || strings.HasSuffix(w.fposFile(f), "_test.go") || !strings.HasPrefix(relPkg(pkgPathOf(f)), "datatype/") {
+			continue
+		}
+		rp := recvParam(f)
+		if rp == nil {
+			continue
+		}
+		// d.Lock() on the receiver's embedded mutex
+		var key, name string
+		for _, b := range f.Blocks {
+			for _, in := range b.Instrs {
+				op, ok := asLockOp(in)
+				if !ok || !op.lock || !op.write {
+					continue
+				}
+				c := in.(*ssa.Call)
+				fa, ok := c.Call.Args[0].(*ssa.FieldAddr)
+				if !ok {
+					continue
+				}
+				isRecv := false
+				for _, rt := range roots(fa.X, f) {
+					if rt.V == ssa.Value(rp) {
+						isRecv = true
+					}
+				}
+				if nm, _, _ := fieldName(fa); isRecv && (nm == "Mutex" || nm == "RWMutex") {
+					key, name = op.key, nm
+				}
+			}
+		}
+		if key == "" {
+			continue
+		}
+		// only methods whose section is meant to cover the rest of the call: the Unlock is deferred
+		// (a method that locks briefly to flip a flag serialises itself by that flag instead)
+		scoped := false
+		for _, b := range f.Blocks {
+			for _, in := range b.Instrs {
+				if d, ok := in.(*ssa.Defer); ok {
+					if callee := d.Call.StaticCallee(); callee != nil && strings.HasPrefix(callee.String(), "(*sync.") && callee.Name() == "Unlock" && len(d.Call.Args) > 0 {
+						if k2, _, _ := mutexKey(d.Call.Args[0]); k2 == key {
+							scoped = true
+						}
+					}
+				}
+			}
+		}
+		if !scoped {
+			continue
+		}
+		k := 0
+		for _, c := range calls(f) {
+			if _, isDefer := c.(*ssa.Defer); isDefer {
+				continue
+			}
+			if _, isGo := c.(*ssa.Go); isGo {
+				continue
+			}
+			writes := sinks.isStorageWrite(c)
+			if !writes {
+				if callee := staticCallee(c); callee != nil && strings.HasPrefix(pkgPathOf(callee), modPath) && reach.From(callee) {
+					writes = true
+				}
+			}
+			if !writes {
+				continue
+			}
+			n++
+			k++
+			held, _ := heldKeyAt(f, c, key)
+			r.check(held, fmt.Sprintf("%s:store-write#%d:inside-own-%s", fname(f), k, name), "the write happens with the instance's mutex held",
+				"the method takes its instance's mutex but performs a store write ("+callDesc(c)+") outside it: the write is not part of the critical section, so concurrent calls interleave (e.g. delete, delete, write, write leaves the union of two replacements)", w.pos(c.Pos()))
+		}
+	}
+	r.check(n >= 2, "datatype:self-serialised-writers", fmt.Sprintf("%d store writes in methods that take their instance's own mutex", n), "too few: rule needs review", "-")
+}
+
+// ---------------------------------------------------------------------------------------------
+// R11.15 / R13.13 — sync events are not dropped
+
+func init() {
+	reg := func(id, prop string) {
+		register(ruleDef{ID: id, Prop: prop, Tier: "quick", Floor: 1,
+			Title: "a sync event is never dropped: events are handed to a subscriber's queue with a blocking send (a select with a default branch loses the event when the queue is full, and the derived data lags its source for good)",
+			Fn:    ruleSyncSendBlocking})
+	}
+	reg("R11.15", "C11")
+	reg("R13.13", "C13")
+}
+
+func ruleSyncSendBlocking(r *Run) {
+	w := r.W
+	nBlocking, bad := 0, 0
+	for _, f := range w.RepoFuncs {
+		if len(f.Blocks) == 0 || strings.HasSuffix(w.fposFile(f), "_test.go") {
+			continue
+		}
+		for _, b := range f.Blocks {
+			for _, in := range b.Instrs {
+				switch x := in.(type) {
+				case *ssa.Send:
+					if isSyncSend(x) {
+						nBlocking++
+					}
+				case *ssa.Select:
+					for _, st := range x.States {
+						if st.Dir != types.SendOnly {
+							continue
+						}
+						ch, ok := st.Chan.Type().Underlying().(*types.Chan)
+						if !ok || !typeIs(ch.Elem(), "datastore", "SyncMessage") {
+							continue
+						}
+						if x.Blocking {
+							nBlocking++
+						} else {
+							bad++
+							r.violation(fmt.Sprintf("%s:sync-send#%d:non-blocking", fname(f), bad),
+								"a sync message is sent with a select that has a default branch: when the subscriber's queue is full the event is dropped and the subscriber's derived data never catches up", w.pos(x.Pos()))
+						}
+					}
+				}
+			}
+		}
+	}
+	if bad == 0 {
+		r.check(nBlocking >= 1, "repo:sync-sends-blocking", fmt.Sprintf("%d sends of sync messages, all blocking", nBlocking), "no send of a sync message found: rule needs review", "-")
+	}
+}
